@@ -124,3 +124,134 @@ Proof.
   rewrite E1, E2, E3. cbn [andb]. apply acos_cos. lra.
 Qed.
 End RT.
+
+(* ------------------------------------------------------------------ the node: Omega is returned exactly *)
+Section Rot2.
+Variables e cO sO co so cf sf ci si : R.
+Hypothesis HO : cO*cO+sO*sO=1.
+Hypothesis Ho : co*co+so*so=1.
+Hypothesis Hf : cf*cf+sf*sf=1.
+Hypothesis Hi : ci*ci+si*si=1.
+Let A := cO * (co * cf - so * sf) - sO * (so * cf + co * sf) * ci.
+Let B := sO * (co * cf - so * sf) + cO * (so * cf + co * sf) * ci.
+Let C := (so * cf + co * sf) * si.
+Let U := ((e + cf) * ((- ci) * co * sO - cO * so) - sf * (co * cO - ci * so * sO)).
+Let V := ((e + cf) * (ci * co * cO - sO * so) - sf * (co * sO + ci * so * cO)).
+Let W := ((e + cf) * co * si - sf * si * so).
+Lemma hx_id : B*W-C*V = si*sO*(1+e*cf).
+Proof. subst A B C U V W. nsatz. Qed.
+Lemma hy_id : C*U-A*W = - si*cO*(1+e*cf).
+Proof. subst A B C U V W. nsatz. Qed.
+End Rot2.
+
+Section Node.
+Variable L : libm R.
+Variable L2 : libm2 R.
+Hypothesis Hacos : l_acos L2 = acos.
+Hypothesis HPI : l_pi L = PI.
+
+(* acos2 inverts (K cos th, K, S sin th) on (-PI, PI]: the clamping branches give exactly 0 and PI *)
+Lemma acos2_recover : forall th K S, 0 < K -> 0 < S -> - PI < th <= PI ->
+  acos2 RNum L L2 (K * cos th) K (S * sin th) = th.
+Proof.
+  intros th K S HK HS Hth. unfold acos2. cbn [ndiv nltb nleb nneg none nzero RNum]. rewrite Hacos, HPI.
+  replace (K * cos th / K) with (cos th) by (field; lra).
+  pose proof (sin2_cos2 th) as SC. unfold Rsqr in SC.
+  destruct (Req_dec th PI) as [E|NE].
+  { subst th. rewrite cos_PI.
+    assert (E1 : Rltb (- (1)) (-1) = false) by (apply Rltb_false; lra). rewrite E1. cbn [andb].
+    assert (E2 : Rleb (-1) (- (1)) = true) by (unfold Rleb; destruct (Rle_dec (-1) (- (1))); [reflexivity | lra]).
+    rewrite E2. reflexivity. }
+  destruct (Req_dec th 0) as [E0|NE0].
+  { subst th. rewrite cos_0.
+    assert (E1 : Rltb 1 1 = false) by (apply Rltb_false; lra). rewrite E1, Bool.andb_false_r.
+    assert (E2 : Rleb 1 (- (1)) = false) by (unfold Rleb; destruct (Rle_dec 1 (- (1))); [lra | reflexivity]).
+    rewrite E2. reflexivity. }
+  destruct (Rlt_or_le 0 th) as [Hp|Hn].
+  - assert (Hs : 0 < sin th) by (apply sin_gt_0; lra).
+    assert (B : -1 < cos th < 1) by (split; nra).
+    assert (E1 : Rltb (- (1)) (cos th) = true) by (apply Rltb_true; lra).
+    assert (E2 : Rltb (cos th) 1 = true) by (apply Rltb_true; lra).
+    assert (E3 : Rltb (S * sin th) 0 = false) by (apply Rltb_false; nra).
+    rewrite E1, E2, E3. cbn [andb]. apply acos_cos. lra.
+  - assert (Hs : 0 < sin (- th)) by (apply sin_gt_0; lra).
+    rewrite sin_neg in Hs.
+    assert (B : -1 < cos th < 1) by (split; nra).
+    assert (E1 : Rltb (- (1)) (cos th) = true) by (apply Rltb_true; lra).
+    assert (E2 : Rltb (cos th) 1 = true) by (apply Rltb_true; lra).
+    assert (E3 : Rltb (S * sin th) 0 = true) by (apply Rltb_true; nra).
+    rewrite E1, E2, E3. cbn [andb]. rewrite <- (cos_neg th). rewrite acos_cos by lra. ring.
+Qed.
+
+Lemma roundtrip_Omega : forall tiny G t0 prim m a e t p o inc Om,
+  trig_ok t -> 0 < G * (m + pm prim) -> shape_ok a e -> -1 < e * cf t -> tiny <= pm prim ->
+  si t = sin inc -> 0 < inc < PI -> cO t = cos Om -> sO t = sin Om -> - PI < Om <= PI ->
+  from_orbit_err RNum tiny G prim m a e t = inr p ->
+  orbit_from_particle_err RNum L L2 tiny G t0 p prim = inr o ->
+  o_Omega o = Om.
+Proof.
+  intros tiny G t0 prim m a e t p o inc Om Ht Hmu Hsh Hcf Htiny Hsi Hinc HcO HsO HOm Hp Ho.
+  (* the components of the constructed particle *)
+  pose proof Ht as [HO [Ho' [Hf Hi]]].
+  assert (Hq : exists r v0, 0 < r /\ 0 < v0 /\
+     px p - px prim = r * (cO t * (co t * cf t - so t * sf t) - sO t * (so t * cf t + co t * sf t) * ci t) /\
+     py p - py prim = r * (sO t * (co t * cf t - so t * sf t) + cO t * (so t * cf t + co t * sf t) * ci t) /\
+     pz p - pz prim = r * ((so t * cf t + co t * sf t) * si t) /\
+     pvx p - pvx prim = v0 * ((e + cf t) * (- ci t * co t * sO t - cO t * so t) - sf t * (co t * cO t - ci t * so t * sO t)) /\
+     pvy p - pvy prim = v0 * ((e + cf t) * (ci t * co t * cO t - sO t * so t) - sf t * (co t * sO t + ci t * so t * cO t)) /\
+     pvz p - pvz prim = v0 * ((e + cf t) * co t * si t - sf t * si t * so t)).
+  { unfold from_orbit_err in Hp. cbn [neqb nltb none nzero nneg nmul nadd nsub ndiv nsqrt RNum] in Hp.
+    assert (E0 : Reqb a 0 = false) by (apply Reqb_false; destruct Hsh; lra).
+    assert (E1 : Reqb e 1 = false) by (apply Reqb_false; destruct Hsh; lra).
+    assert (E2 : Rltb e 0 = false) by (apply Rltb_false; destruct Hsh; lra).
+    assert (E3 : (if Rltb 1 e then Rltb 0 a else Rltb a 0) = false).
+    { destruct (Rltb 1 e) eqn:K; [apply Rltb_true in K|apply Rltb_false in K]; apply Rltb_false; destruct Hsh; lra. }
+    assert (E5 : Rltb (e * cf t) (Ropp 1) = false) by (apply Rltb_false; lra).
+    assert (E6 : Rltb (pm prim) tiny = false) by (apply Rltb_false; lra).
+    rewrite E0, E1, E2, E3, E5, E6 in Hp. injection Hp as Hp. subst p. cbn [pm px py pz pvx pvy pvz].
+    assert (Haq : 0 < a * (1 - e*e)).
+    { destruct Hsh as [[He Ha]|[He Ha]].
+      - apply Rmult_lt_0_compat; nra.
+      - replace (a * (1 - e*e)) with ((-a) * (e*e - 1)) by ring. apply Rmult_lt_0_compat; nra. }
+    assert (Ha0 : a <> 0) by (destruct Hsh; lra).
+    assert (Hq0 : 1 - e*e <> 0) by (intro K; rewrite K in Haq; lra).
+    exists (a * (1 - e * e) / (1 + e * cf t)), (sqrt (G * (m + pm prim) / a / (1 - e * e))).
+    split; [apply Rdiv_lt_0_compat; lra|]. split.
+    { apply sqrt_lt_R0. replace (G * (m + pm prim) / a / (1 - e * e)) with (G * (m + pm prim) / (a * (1 - e*e))) by (field; split; assumption).
+      apply Rdiv_lt_0_compat; assumption. }
+    repeat split; ring. }
+  destruct Hq as [r [v0 [Hr [Hv0 [Ex [Ey [Ez [Evx [Evy Evz]]]]]]]]].
+  assert (HOdef : o_Omega o =
+     acos2 RNum L L2 (- ((pz p - pz prim) * (pvx p - pvx prim) - (px p - px prim) * (pvz p - pvz prim)))
+       (sqrt ((- ((pz p - pz prim) * (pvx p - pvx prim) - (px p - px prim) * (pvz p - pvz prim))) *
+              (- ((pz p - pz prim) * (pvx p - pvx prim) - (px p - px prim) * (pvz p - pvz prim))) +
+              ((py p - py prim) * (pvz p - pvz prim) - (pz p - pz prim) * (pvy p - pvy prim)) *
+              ((py p - py prim) * (pvz p - pvz prim) - (pz p - pz prim) * (pvy p - pvy prim))))
+       ((py p - py prim) * (pvz p - pvz prim) - (pz p - pz prim) * (pvy p - pvy prim))).
+  { unfold orbit_from_particle_err in Ho.
+    destruct (nleb RNum (pm prim) tiny); [discriminate|]. cbv zeta in Ho.
+    match type of Ho with (if ?c then _ else _) = _ => destruct c; [discriminate|] end.
+    match type of Ho with context [match ?X with pair _ _ => _ end] => destruct X as [[[om pom] ff] th] end.
+    injection Ho as <-. reflexivity. }
+  rewrite HOdef, Ex, Ey, Ez, Evx, Evy, Evz.
+  pose proof (hx_id e _ _ _ _ _ _ _ _ HO Ho' Hf Hi) as HX. pose proof (hy_id e _ _ _ _ _ _ _ _ HO Ho' Hf Hi) as HY.
+  cbv zeta in HX, HY.
+  set (A := cO t * (co t * cf t - so t * sf t) - sO t * (so t * cf t + co t * sf t) * ci t) in *.
+  set (B := sO t * (co t * cf t - so t * sf t) + cO t * (so t * cf t + co t * sf t) * ci t) in *.
+  set (C := (so t * cf t + co t * sf t) * si t) in *.
+  set (U := (e + cf t) * (- ci t * co t * sO t - cO t * so t) - sf t * (co t * cO t - ci t * so t * sO t)) in *.
+  set (V := (e + cf t) * (ci t * co t * cO t - sO t * so t) - sf t * (co t * sO t + ci t * so t * cO t)) in *.
+  set (W := (e + cf t) * co t * si t - sf t * si t * so t) in *.
+  assert (Hs : 0 < si t) by (rewrite Hsi; apply sin_gt_0; lra).
+  set (K := r * v0 * (1 + e * cf t) * si t).
+  assert (HK : 0 < K) by (unfold K; repeat apply Rmult_lt_0_compat; lra).
+  replace (- (r * C * (v0 * U) - r * A * (v0 * W))) with (K * cos Om)
+    by (unfold K; rewrite <- HcO; replace (r * C * (v0 * U) - r * A * (v0 * W)) with (r * v0 * (C*U - A*W)) by ring; rewrite HY; ring).
+  replace (r * B * (v0 * W) - r * C * (v0 * V)) with (K * sin Om)
+    by (unfold K; rewrite <- HsO; replace (r * B * (v0 * W) - r * C * (v0 * V)) with (r * v0 * (B*W - C*V)) by ring; rewrite HX; ring).
+  replace (sqrt (K * cos Om * (K * cos Om) + K * sin Om * (K * sin Om))) with K.
+  2:{ replace (K * cos Om * (K * cos Om) + K * sin Om * (K * sin Om)) with (K * K * ((sin Om)² + (cos Om)²)) by (unfold Rsqr; ring).
+      rewrite sin2_cos2, Rmult_1_r. symmetry. apply sqrt_square. lra. }
+  apply acos2_recover; lra.
+Qed.
+End Node.
